@@ -2,15 +2,15 @@
 import concurrent.futures, itertools, json, os, posixpath, shutil, subprocess, tempfile
 import core, findings
 from core import World, hx, Line, unhx
-from gen import Gen, PUNCT_NAMES
+from gen import Gen, PUNCT_NAMES, PCT_NAMES
 from suites import run_suite
 
-LEAN_MODULES = ['GoSnaps.Props.C11', 'GoSnaps.Props.Tie.Path', 'GoSnaps.Props.Tie.Wrappers', 'GoSnaps.Props.Tie.Caller']
+LEAN_MODULES = ['GoSnaps.Props.C11', 'GoSnaps.Props.Tie.Path', 'GoSnaps.Props.Tie.Wrappers', 'GoSnaps.Props.Tie.Caller', 'GoSnaps.Props.C11Standalone']
 
-DIRS = ['-', 'snaps', 'a/b/__snapshots__', '../shared', './x/../y', '/abs/dir', '/abs/./d/../e/']
-FILES = ['-', 'custom', 'my_test', 'api.v1', 'with.two.dots']
-EXTS = ['-', '.txt', '.json']
-NAMES = ['TestA', 'TestA/sub_case', 'TestA/x/y', 'TestB#01', 'TestR/ratio/1.25', 'TestV1.2'] + PUNCT_NAMES + [
+DIRS = ['-', 'snaps', 'a/b/__snapshots__', '../shared', './x/../y', '/abs/dir', '/abs/./d/../e/', 'cov%d/100%']
+FILES = ['-', 'custom', 'my_test', 'api.v1', 'with.two.dots', 'rate_100%s']
+EXTS = ['-', '.txt', '.json', '.%v']
+NAMES = ['TestA', 'TestA/sub_case', 'TestA/x/y', 'TestB#01', 'TestR/ratio/1.25', 'TestV1.2'] + PUNCT_NAMES + [n.decode() if isinstance(n, bytes) else n for n in PCT_NAMES] + [
     'TestTrail/', 'TestDbl//slash', 'TestDot/.', 'TestDot/..', 'TestDot/.hidden', 'Test_/_', 'TestLong/' + 'n' * 120]
 
 
@@ -25,9 +25,13 @@ def formula(caller, d, fn, ext, name, standalone):
         nm = name.replace('/', '_')
     else:
         nm = posixpath.splitext(posixpath.basename(caller))[0]
+    e = '' if ext == '-' else ext
     if standalone:
-        nm += '_%d'
-    return posixpath.normpath(posixpath.join(base, nm + '.snap' + ('' if ext == '-' else ext)))
+        # the standalone location is a FORMAT for the ordinal: its only verb is the `%d` after the name, every
+        # other `%` (in the directory, the name, the extension) stands for itself (`%%`; repair of D12)
+        q = lambda x: x.replace('%', '%%')
+        return posixpath.normpath(posixpath.join(q(base), q(nm) + '_%d.snap' + q(e)))
+    return posixpath.normpath(posixpath.join(base, nm + '.snap' + e))
 
 
 def path_worlds():
